@@ -222,6 +222,11 @@ def rand_scripts(rng, kind):
         if rng.random() < 0.6:
             main.insert(rng.randrange(0, len(main) + 1), ["dropguard"])
         return {"kind": "channel", "wakers": [], "threads": threads, "main": main, "cecho": rng.random() < 0.2}
+    if rng.random() < 0.12:
+        # the worker sends a burst while the main thread keeps collecting: every message must arrive
+        ops = [["send", 100 + i] for i in range(rng.randrange(4, 9))] + [["recv"]]
+        return {"kind": "piped", "wakers": [], "threads": [ops], "main": [["poll"] for _ in range(rng.randrange(3, 7))] + [["psend", 1], ["poll"]],
+                "autodrop": True}
     ops = []
     for _ in range(rng.randrange(1, 5)):
         ops.append(rng.choice([["recv"], ["recv"], ["send", rng.randrange(1, 9)], ["cancel"]]))
@@ -339,6 +344,9 @@ def run(prop, tier, seed, replay=None):
                           "change": sorted(rng.sample(range(1, 46), rng.choice([1, 1, 2, 2, 3])))})
             if c.get("burst"):
                 c.update({"schedule": [1] * 4000, "fallback": "rr"})
+            elif rng.random() < 0.5:
+                c["fine"] = True      # mutex releases are scheduling points as well
+
             if kind != "waker" and rng.random() < 0.15:
                 c["fillers"] = 4095
             cases.append(c)
